@@ -5,6 +5,7 @@ import (
 	"fmt"
 	"math/big"
 	"strings"
+	"time"
 
 	revocation "github.com/gr33nbl00d/caddy-revocation-validator"
 	"github.com/gr33nbl00d/caddy-revocation-validator/config"
@@ -91,6 +92,7 @@ func runC03(r *Run) {
 		}
 	}
 	parallel(len(cells), 16, func(i int) { c03RunCell(r, ca, origin, i, cells[i]) })
+	c03ConfiguredCRLs(r, ca, origin)
 
 	// parseMode strings
 	strs := []string{"", "prefer_ocsp", "prefer_crl", "ocsp_only", "crl_only", "disabled", "Disabled", "DISABLED", " disabled",
@@ -144,6 +146,67 @@ func runC03(r *Run) {
 			r.Violate("C03 parse-mode", fmt.Sprintf("mode string %q parsed to %s, documented %s", s, obs, want), map[string]string{"mode": s})
 		}
 	}
+}
+
+// c03ConfiguredCRLs: "disabled accepts every verified chain without touching network or storage", "ocsp_only never consults
+// CRLs" also hold for a configuration that still carries crl_urls / crl_files (loaded from JSON, as Caddy loads it): nothing
+// of the CRL subsystem may start at Provision, at a handshake or on the ticker. The modes that enable CRLs are the control:
+// there the configured list is fetched at Provision and enforced.
+func c03ConfiguredCRLs(r *Run, ca *CA, origin *Origin) {
+	type cc struct {
+		mode, storage, src string
+	}
+	var cases []cc
+	for _, m := range []string{"", "prefer_ocsp", "prefer_crl", "ocsp_only", "crl_only", "disabled"} {
+		for _, st := range []string{"memory", "disk"} {
+			for _, src := range []string{"url", "file"} {
+				cases = append(cases, cc{m, st, src})
+			}
+		}
+	}
+	parallel(len(cases), 8, func(i int) {
+		c := cases[i]
+		listed := ca.IssueLeaf(LeafOpts{CN: fmt.Sprintf("c03 configured %d", i)})
+		crlBytes := ca.MakeCRL(CRLOpts{Serials: []*big.Int{listed.Cert.SerialNumber}, Number: 3})
+		path := fmt.Sprintf("/c03/configured/%d.crl", i)
+		origin.SetBytes(path, crlBytes)
+		wd := scratchDir("c03cfg")
+		cfg := VCfg{Mode: c.mode, WorkDir: wd, Storage: c.storage, UpdateInterval: "150ms", TrustedSigners: []string{writeFile(scratchDir("c03sig"), "ca.pem", certPEM(ca.Cert))}}
+		if c.src == "url" {
+			cfg.CRLUrls = []string{origin.URL(path)}
+		} else {
+			cfg.CRLFiles = []string{writeFile(scratchDir("c03file"), "list.crl", crlBytes)}
+		}
+		v, err := Provision(cfg)
+		if err != nil {
+			r.Violate("C03 provision-failed", fmt.Sprintf("configured CRL, mode %q %s %s: %v", c.mode, c.storage, c.src, err), nil)
+			return
+		}
+		verdict, _ := v.Verify([][]*x509.Certificate{{listed.Cert, ca.Cert}})
+		time.Sleep(400 * time.Millisecond) // two ticker periods
+		hits := origin.Hits(path)
+		residue := listDir(wd)
+		v.Close()
+		crlOn := c.mode == "" || c.mode == "prefer_ocsp" || c.mode == "prefer_crl" || c.mode == "crl_only"
+		key := fmt.Sprintf("configured-crl mode=%q storage=%s source=%s", c.mode, c.storage, c.src)
+		if crlOn {
+			if verdict != "reject" {
+				r.Violate("C03 verdict", key+": the certificate listed in the configured CRL was "+verdict, nil)
+			}
+		} else {
+			if verdict != "accept" {
+				r.Violate("C03 verdict", key+": verdict "+verdict+" although the mode disables CRLs (no OCSP responder named)", nil)
+			}
+			if hits > 0 {
+				r.Violate("C03 consulted-disabled-mechanism", fmt.Sprintf("%s: the configured CRL location was requested %d time(s)", key, hits), nil)
+			}
+			if len(residue) > 0 {
+				r.Violate("C03 consulted-disabled-mechanism", fmt.Sprintf("%s: the work directory was used: %v", key, residue), nil)
+			}
+		}
+		r.Eval(key, true)
+		r.Count("configured-crl:" + c.mode)
+	})
 }
 
 type c03Subject struct {
